@@ -58,8 +58,14 @@ func Check(sa flows.SessionAssets, flow flows.Flow, tpls []flows.ExtractedTempla
 		issues = append(issues, i)
 	}
 
-	for _, fn := range RegisteredTypes {
-		fn(sa, flow, tpls, refs, report)
+	typeNames := make([]string, 0, len(RegisteredTypes))
+	for name := range RegisteredTypes {
+		typeNames = append(typeNames, name)
+	}
+	sort.Strings(typeNames)
+
+	for _, name := range typeNames {
+		RegisteredTypes[name](sa, flow, tpls, refs, report)
 	}
 
 	// sort issues by node order
